@@ -968,9 +968,6 @@ def run(ctx):
   nflags = len(info['flags'])
   cms = all_cms(nflags)
   ctx.extra['managers'] = [cm_name(c, info) for c in cms]
-  if info.get('hand_written_changed'):
-    ctx.log('NOTE: the source of the hand-written manager changed (%s); Model/Scopes.v detour_enter/detour_exit are tied to it by the correspondence only'
-            % ', '.join(info['hand_written_changed']))
   ctx.extra['hand_written_manager_source'] = dict(fingerprints=info.get('hand_written_fingerprints'), changed=info.get('hand_written_changed'))
   ctx.extra['translator_notes'] = info.get('notes')
   ctx.extra['translated_from_source'] = dict(
